@@ -399,6 +399,30 @@ def reposition_reset(ck, P, cfg):
                   where(fn, c.line))
 
 
+def compact_order(ck, P, cfg):
+    """gz_avail moves the unconsumed input to the front of the buffer (copy from stream.next_in to state.input) and only
+    then re-points next_in at the buffer start.  If next_in is re-pointed first the copy is a self-copy and the carried-over
+    bytes (for instance the first magic byte of the next gzip member) are replaced by stale buffer contents."""
+    R = "ORDER/compact-then-repoint"
+    fn = P.fn(G + "gz_avail")
+    if not ck.anchor("fn gz::gz_avail (%s)" % cfg, fn):
+        return
+    ck.use_fn(fn)
+    copies = [c for c in fn.live_calls(r"core::ptr::copy$|intrinsics::copy$") if mir.mentions_field(fn.call_args(c)[0], "next_in")]
+    if not ck.anchor("compacting copy from next_in in gz_avail (%s)" % cfg, len(copies) == 1, where(fn)):
+        return
+    c = copies[0]
+    dst_ok = mir.mentions_field(fn.call_args(c)[1], "input")
+    cnt_ok = mir.mentions_field(fn.call_args(c)[2], "avail_in")
+    ck.decide(dst_ok and cnt_ok, R, "gz_avail:copy-shape@" + cfg, "copy(next_in, input, avail_in)",
+              "the compacting copy of gz_avail is no longer copy(next_in -> input, avail_in bytes)", where(fn, c.line))
+    writes = [bi for bi, fp, root, rv, st in fn.field_writes() if fp[-1:] == ("next_in",)]
+    early = [w for w in writes if c.bb in fn.reach_from(w) and w != c.bb]
+    ck.decide(bool(writes) and not early, R, "gz_avail:repoint-after-copy@" + cfg, "next_in is re-pointed only after the copy",
+              "gz_avail stores a new stream.next_in before it has copied the unconsumed input from the old next_in: the copy reads from the "
+              "new position (a self-copy) and the carried-over bytes are lost", where(fn, c.line))
+
+
 def _admission_subset(ck, P, cfg):
     global READ_ENTRIES
     re_ = READ_ENTRIES
@@ -455,4 +479,5 @@ def run(ck):
         gz_cursor(ck, P, cfg)
         magic_lookahead(ck, P, cfg)
         reposition_reset(ck, P, cfg)
+        compact_order(ck, P, cfg)
     ck.assumptions += ["rustc MIR", "effect vocabulary and exception list in rules/props/c17.py", "K1 and K2 (gz feature)"]
